@@ -18,8 +18,19 @@ def sh(cmd, cwd=None, env=None, timeout=3600):
     e = dict(os.environ)
     if env:
         e.update(env)
-    p = subprocess.run(cmd, shell=True, cwd=cwd, env=e, stdout=subprocess.PIPE, stderr=subprocess.STDOUT, text=True, timeout=timeout)
-    return p.returncode, p.stdout
+    import signal
+    pr = subprocess.Popen(cmd, shell=True, cwd=cwd, env=e, stdout=subprocess.PIPE, stderr=subprocess.STDOUT, text=True,
+                          start_new_session=True)
+    try:
+        out, _ = pr.communicate(timeout=timeout)
+        return pr.returncode, out
+    except subprocess.TimeoutExpired:
+        try:
+            os.killpg(pr.pid, signal.SIGKILL)      # the whole group: a seeded change may make a check hang
+        except ProcessLookupError:
+            pass
+        out, _ = pr.communicate()
+        return 124, (out or "") + "\nTIMEOUT"
 
 
 def do_import(pid, wt, name=None):
